@@ -173,6 +173,24 @@ impl World {
         if depth > 100 {
             return None;
         }
+        // PROJ syntax (a single step with a proj=NAME element, optional '+' prefixes) is
+        // translated by the Plain context only, at the top level: "+proj=a +k=3" means "a k=3"
+        let translated: String;
+        let def = if depth == 0 && self.ctxs[c].plain && def.contains("proj=") && !def.contains('|') {
+            let mut name = String::new();
+            let mut rest: Vec<String> = Vec::new();
+            for tok in def.split_whitespace() {
+                let tok = tok.trim_start_matches('+');
+                match tok.strip_prefix("proj=") {
+                    Some(n) => name = n.to_string(),
+                    None => rest.push(tok.to_string()),
+                }
+            }
+            translated = format!("{} {}", name, rest.join(" "));
+            translated.as_str()
+        } else {
+            def
+        };
         // comments: everything from '#' to the end of the line
         let clean: String = def.lines().map(|l| l.split('#').next().unwrap_or("")).collect::<Vec<_>>().join(" ");
         let steps: Vec<&str> = clean.split('|').map(|s| s.trim()).filter(|s| !s.is_empty()).collect();
